@@ -119,6 +119,7 @@ counters!(
     kf1_hits,
     kf2_roundtrip_hits,
     kf2_backstep_hits,
+    kf3_backstep_hits,
     real_disk_installs,
     max_reads_in_one_load,
     budget_of_that_load,
@@ -1248,6 +1249,7 @@ impl Sim {
                         w.ctr.add(C::kf1_hits, st.hits.kf1);
                         w.ctr.add(C::kf2_roundtrip_hits, st.hits.kf2_roundtrip);
                         w.ctr.add(C::kf2_backstep_hits, st.hits.kf2_backstep);
+                        w.ctr.add(C::kf3_backstep_hits, st.hits.kf3_backstep);
                         w.log.u64(st.utc_probes);
                         match r {
                             Ok(Ok(())) => {}
